@@ -27,6 +27,12 @@ type sweepCase struct {
 	run  func(n, pos int) string // "" = ok
 }
 
+// cases listed here run over these sizes instead of sweepSizes
+var customSizes = map[string][]int{}
+
+// byte lengths for long STRINGS (buffer sizes of scanners/readers: 4 KiB, 64 KiB)
+var longStringSizes = []int{1000, 4095, 4096, 4097, 65535, 65536, 65537, 70000, 200001}
+
 func intsUpTo(n int) []interface{} {
 	v := make([]interface{}, n)
 	for i := range v {
@@ -43,8 +49,15 @@ func sizeSweep(c *ev.Ctx, prop string) {
 	}
 	n0 := c.Evals()
 	for _, sc := range cases {
-		for _, n := range sweepSizes {
+		sizes, custom := customSizes[sc.name]
+		if !custom {
+			sizes = sweepSizes
+		}
+		for _, n := range sizes {
 			for _, pos := range sweepPositions(n) {
+				if custom && pos > 1 {
+					continue // long-string cases use pos only as a variant selector (0, 1)
+				}
 				if pos < 0 || pos >= n {
 					continue
 				}
@@ -162,8 +175,14 @@ var sweepCases = map[string][]sweepCase{
 			if !sameSeq(sub.Slice(), m[1:len(m)-1]) {
 				return "SubList(1,-1) differs from the slice model"
 			}
-			if !l.Contains("ins") || !l.Contains("tail") || l.Contains(n) {
-				return "Contains disagrees with the slice model"
+			for _, probe := range []interface{}{"ins", "tail", "last", n, 0, n - 1, pos} {
+				want := false
+				for _, x := range m {
+					want = want || sameVal(x, probe)
+				}
+				if l.Contains(probe) != want {
+					return fmt.Sprintf("Contains(%v) disagrees with the slice model (want %v)", probe, want)
+				}
 			}
 			return ""
 		}},
@@ -488,6 +507,215 @@ var sweepCases = map[string][]sweepCase{
 			return ""
 		}},
 	},
+}
+
+// long strings as value and as key, at the top level and nested (pos 0: in a nested container, pos 1: top level)
+func longStringDoc(n, pos int) (at.List, string) {
+	str := strings.Repeat("ab", n/2) + "\"q"
+	if pos == 0 {
+		return at.NewList(1, at.NewObject("k", str, str[:n/2], at.NewList(str)), "end"), str
+	}
+	return at.NewList(str, 2), str
+}
+
+func init() {
+	customSizes["round trip with a very long string"] = longStringSizes
+	customSizes["String() with a very long string"] = longStringSizes
+	customSizes["FormatString with a very long string"] = longStringSizes
+	sweepCases["C01"] = append(sweepCases["C01"], sweepCase{"round trip with a very long string", func(n, pos int) string {
+		l, _ := longStringDoc(n, pos)
+		p, err := at.ParseList(l.String())
+		if err != nil {
+			return "re-parse failed: " + err.Error()
+		}
+		if !p.Equals(l) {
+			return "re-parsed list does not Equal the original"
+		}
+		return ""
+	}})
+	sweepCases["C02"] = append(sweepCases["C02"], sweepCase{"String() with a very long string", func(n, pos int) string {
+		l, str := longStringDoc(n, pos)
+		s := l.String()
+		dec, err := jsonref.Decode(s)
+		if !jsonref.Valid(s) || err != nil {
+			return fmt.Sprintf("not valid JSON (%v)", err)
+		}
+		if pos == 1 {
+			if arr, ok := dec.([]interface{}); !ok || len(arr) != 2 || arr[0] != str {
+				return "the long string does not survive"
+			}
+		} else if arr, ok := dec.([]interface{}); !ok || len(arr) != 3 || arr[1].(map[string]interface{})["k"] != str {
+			return "the nested long string does not survive"
+		}
+		return ""
+	}})
+	sweepCases["C16"] = append(sweepCases["C16"], sweepCase{"FormatString with a very long string", func(n, pos int) string {
+		l, _ := longStringDoc(n, pos)
+		for _, ind := range []int{0, 3} {
+			out := l.FormatString(ind)
+			if !jsonref.Valid(out) {
+				return fmt.Sprintf("FormatString(%d) is not valid JSON (length %d)", ind, len(out))
+			}
+			canon, ok := jsonref.Reindent(out, ind)
+			if !ok || canon != out {
+				return fmt.Sprintf("FormatString(%d) is not canonically laid out", ind)
+			}
+			p, err := at.ParseList(out)
+			if err != nil || !p.Equals(l) {
+				return fmt.Sprintf("FormatString(%d) does not denote the list", ind)
+			}
+		}
+		return ""
+	}})
+	sweepCases["C03"] = []sweepCase{{"parsing a document with a very long string literal and long whitespace runs", func(n, pos int) string {
+		str := strings.Repeat("x", n)
+		ws := strings.Repeat(" ", n/7) + "\n"
+		text := "[" + ws + "\"" + str + "\"" + ws + ",{" + ws + "\"" + str[:n/3] + "\"" + ws + ":" + ws + "12" + ws + "}" + ws + "]"
+		l, err := at.ParseList(text)
+		if err != nil {
+			return "rejected: " + err.Error()
+		}
+		if l.Count() != 2 || l.GetString(0) != str || l.GetObject(1).GetInt(str[:n/3]) != 12 {
+			return "parsed content differs"
+		}
+		return ""
+	}}}
+	sweepCases["C04"] = []sweepCase{{"truncations of a document with a very long string", func(n, pos int) string {
+		l, _ := longStringDoc(n, 0)
+		text := l.String()
+		for _, cut := range []int{1, n / 2, n, len(text) - n/2, len(text) - 3, len(text) - 1} {
+			if cut <= 0 || cut >= len(text) {
+				continue
+			}
+			if p, err := at.ParseList(text[:cut]); err == nil || p != nil {
+				return fmt.Sprintf("the prefix of length %d of a %d-byte document was accepted", cut, len(text))
+			}
+		}
+		bad := text[:len(text)/2] + "\xff" + text[len(text)/2:]
+		if p, err := at.ParseList(bad); err == nil || p != nil {
+			return "ill-formed UTF-8 in the middle of a long string was accepted"
+		}
+		return ""
+	}}}
+	sweepCases["C10"] = []sweepCase{
+		{"tree-form reads on a long list", func(n, pos int) string {
+			vals := intsUpTo(n)
+			inner := at.NewObject("k", at.NewList("deep"))
+			vals[pos] = inner
+			l := at.NewList(vals...)
+			if got := l.GetTF(fmt.Sprintf("#%d.k#0", pos)); got != "deep" {
+				return fmt.Sprintf("GetTF through index %d returned %v", pos, got)
+			}
+			if l.TypeOfTF(fmt.Sprintf("#%d", n-1)) == at.TypeUndefined || l.TypeOfTF(fmt.Sprintf("#%d", n)) != at.TypeUndefined {
+				return "TypeOfTF wrong at the last index / one past it"
+			}
+			if l.GetTF(fmt.Sprintf("#%d", pos)) != interface{}(inner) {
+				return "GetTF does not return the identical nested object"
+			}
+			return ""
+		}},
+	}
+	sweepCases["C11"] = []sweepCase{
+		{"tree-form writes on a long list", func(n, pos int) string {
+			l := at.NewList(intsUpTo(n)...)
+			m := intsUpTo(n)
+			l.SetTF(fmt.Sprintf("#%d", pos), "w")
+			m[pos] = "w"
+			l.UnsetTF(fmt.Sprintf("#%d", n/3))
+			m = append(m[:n/3], m[n/3+1:]...)
+			l.SetTF(fmt.Sprintf("#%d", len(m)+2), "padded")
+			m = append(m, nil, nil, "padded")
+			if !sameSeq(l.Slice(), m) {
+				return "list differs from the slice model after SetTF/UnsetTF/padding SetTF"
+			}
+			l.SetTF(fmt.Sprintf("#%d.a#1", pos%len(m)), 5)
+			got := l.GetTF(fmt.Sprintf("#%d.a#1", pos%len(m)))
+			if got != 5 || l.Count() != len(m) || l.GetTF(fmt.Sprintf("#%d.a#0", pos%len(m))) != nil {
+				return "nested SetTF through a replaced intermediate went wrong"
+			}
+			for i := range m {
+				if i != pos%len(m) && !sameVal(l.Get(i), m[i]) {
+					return fmt.Sprintf("element %d changed although it is not on the path", i)
+				}
+			}
+			return ""
+		}},
+	}
+	sweepCases["C12"] = []sweepCase{
+		{"long native slices and maps", func(n, pos int) string {
+			src := make([]interface{}, n)
+			ints := make([]int, n)
+			fl := make([]float64, n)
+			mp := map[string]interface{}{}
+			for i := range src {
+				src[i], ints[i], fl[i] = int16(i), i, float64(i)/2
+				mp[fmt.Sprint("k", i)] = uint8(i % 250)
+			}
+			src[pos] = []interface{}{int8(-1), map[string]interface{}{"z": float32(0.5)}}
+			l := at.NewListFrom(src)
+			if l.Count() != n || l.TypeOf(n-1) == at.TypeUndefined || (pos != n-1 && l.GetInt(n-1) != n-1) {
+				return "NewListFrom([]any) lost or mangled elements"
+			}
+			if in := l.GetList(pos); in.GetInt(0) != -1 || in.GetObject(1).GetFloat("z") != 0.5 {
+				return "nested native value not normalised"
+			}
+			li, lf, o := at.NewListFrom(ints), at.NewListFrom(fl), at.NewObjectFrom(mp)
+			if li.Count() != n || li.GetInt(pos) != pos || lf.GetFloat(pos) != float64(pos)/2 || !lf.AllFloats() || !li.AllInts() {
+				return "NewListFrom([]int / []float64) wrong"
+			}
+			if o.Count() != n || o.GetInt(fmt.Sprint("k", pos)) != pos%250 {
+				return "NewObjectFrom(map) wrong"
+			}
+			return ""
+		}},
+	}
+	sweepCases["C19"] = []sweepCase{
+		{"fluent calls on a long derived list", func(n, pos int) string {
+			d := newDDL(intsUpTo(n)...)
+			var outer at.List = d
+			calls := map[string]func() at.List{
+				"Insert": func() at.List { return d.Insert(pos, "x") }, "Replace": func() at.List { return d.Replace(pos, "y") },
+				"Delete": func() at.List { return d.Delete(pos, 0) }, "SetTF pad": func() at.List { return d.SetTF(fmt.Sprintf("#%d", d.Count()+3), 1) },
+				"SetTF nested": func() at.List { return d.SetTF(fmt.Sprintf("#%d.k", pos), 1) }, "UnsetTF": func() at.List { return d.UnsetTF(fmt.Sprintf("#%d", pos)) },
+				"Reverse": func() at.List { return d.Reverse() }, "ForEachAsync": func() at.List { return d.ForEachAsync(func(int, interface{}) {}) },
+				"ForEachInt": func() at.List { return d.ForEachInt(func(int) {}) }, "Pop": func() at.List { return d.Pop() },
+			}
+			for _, name := range []string{"Insert", "Replace", "Delete", "SetTF pad", "SetTF nested", "UnsetTF", "Reverse", "ForEachAsync", "ForEachInt", "Pop"} {
+				if ret := calls[name](); ret != outer {
+					return name + " returned something else than the registered outer value"
+				}
+			}
+			return ""
+		}},
+	}
+	sweepCases["C20"] = []sweepCase{
+		{"error line in a long document", func(n, pos int) string {
+			var sb strings.Builder
+			sb.WriteString("[\n")
+			line := 2
+			for i := 0; i < n; i++ {
+				if i == pos {
+					sb.WriteString("  {\"k\": [1,\n 2],\n \"j\" x 3},\n")
+					break
+				}
+				sb.WriteString(fmt.Sprintf("  {\"id\": %d, \"s\": \"v\"},\n", i))
+				line++
+			}
+			want := line + 2
+			_, err := at.ParseList(sb.String())
+			if err == nil {
+				return ""
+			}
+			m := lineRe.FindStringSubmatch(err.Error())
+			if m == nil {
+				return ""
+			}
+			if m[1] != fmt.Sprint(want) {
+				return fmt.Sprintf("error %q cites line %s, the unexpected character is on line %d", err.Error(), m[1], want)
+			}
+			return ""
+		}},
+	}
 }
 
 func boolInt(b bool) int {
